@@ -141,6 +141,9 @@ func pathErr(op, p string, err error) error { return &fs.PathError{Op: op, Path:
 // ---- directory ops -------------------------------------------------------------
 
 func (f *FS) MkdirAll(p string, perm fs.FileMode) error {
+	if err := nameErr(p); err != nil {
+		return pathErr("mkdir", p, err)
+	}
 	p = clean(p)
 	f.mu.Lock()
 	defer f.mu.Unlock()
@@ -212,8 +215,27 @@ type File struct {
 	pos    int64
 }
 
+// nameErr mimics the kernel: no NUL inside a path, no component longer than 255 bytes.
+func nameErr(p string) error {
+	if strings.ContainsRune(p, 0) {
+		return syscall.EINVAL
+	}
+	for _, c := range strings.Split(p, "/") {
+		if len(c) > 255 {
+			return syscall.ENAMETOOLONG
+		}
+	}
+	return nil
+}
+
 func (f *FS) OpenFile(name string, flag int, perm fs.FileMode) (*File, error) {
 	p := clean(name)
+	if err := nameErr(name); err != nil {
+		f.mu.Lock()
+		f.audit("open", p, flag, 0, 0, err)
+		f.mu.Unlock()
+		return nil, pathErr("open", name, err)
+	}
 	f.sleep(f.OpenLat)
 	if f.OnOpen != nil {
 		if err := f.OnOpen(p, flag); err != nil {
